@@ -87,7 +87,8 @@ def menu_entry(k):
     if kind == "driver":
         m.update(R=r.choice([1, 2, 3]), n_blocks=r.choice([2, 3]), n_sr_blocks=r.choice([1, 2]), n_eql=1, n_ene_blocks_eql=1, n_sr_blocks_eql=r.choice([1, 2]),
                  ad_mode=None, orbital_rotation=True, do_sr=True)
-    return lab.corner_override(m, k, 9)
+    # an empty spin channel only with the plain entry point (jax's derivative rule of det fails on 0 x 0 blocks)
+    return lab.corner_override(m, k, 9, empty_ok=not str(m.get("entry", "plain")).startswith("ad"))
 
 
 def _gen_faults(rng, cfg, nsteps, nslots=lab.N_FAULT_SLOTS):
